@@ -15,6 +15,7 @@ pub mod c12;
 pub mod texts;
 pub mod witness;
 pub mod explore;
+pub mod miri;
 pub mod c05;
 pub mod c06;
 pub mod c07;
@@ -241,7 +242,14 @@ impl<'a> Acc<'a> {
                 self.inconclusive.push(format!("{workload}: case {idx} did not finish"));
             }
         }
-        if r.dropped_after_limit > 0 && r.hangs.is_empty() && r.crashes.is_empty() {
+        if r.budget_exceeded {
+            self.inconclusive.push(format!(
+                "{workload}: wall-clock budget used up after {} of {} cases ({} not run); the cases are much slower than on the reference tree",
+                r.evaluations,
+                wl.len(),
+                r.dropped_after_limit
+            ));
+        } else if r.dropped_after_limit > 0 && r.hangs.is_empty() && r.crashes.is_empty() {
             self.inconclusive.push(format!(
                 "{workload}: {} cases were not run after {} watchdog suspects that finished in isolation",
                 r.dropped_after_limit,
@@ -265,6 +273,72 @@ impl<'a> Acc<'a> {
             // witnesses are not part of the exploration counts
             self.evaluations = evals;
         }
+    }
+
+    /// Sanitizer stage: re-runs process-level workloads against an AddressSanitizer build of the binaries.
+    pub fn asan(&mut self, workloads: &[&str]) {
+        use crate::drive::sanitize::{asan_binaries, BinaryOverride};
+        match asan_binaries() {
+            Err(e) => self.notes.push(format!("ASan stage inconclusive (tool failure, no verdict): {}", clip(&e, 300))),
+            Ok((cli, lsp)) => {
+                let _g = BinaryOverride::asan(&cli, &lsp);
+                for w in workloads {
+                    let name = format!("{w}-asan");
+                    if let Some(wl) = workload(&name, &self.ctx.tier) {
+                        let evals = self.evaluations;
+                        let r = self.pool(wl.as_ref(), &name, true);
+                        self.observed.insert(format!("sanitizer_stage:asan:{w}"), json!({"cases": r.evaluations, "violations": r.violations.len(), "crashes": r.crashes.len()}));
+                        self.evaluations = evals + r.evaluations;
+                    }
+                }
+            }
+        }
+    }
+
+    /// Sanitizer stage: cases [lo, hi) of the tiny Miri workload under `cargo +nightly miri run`.
+    /// Undefined behaviour reported by the interpreter is a violation; a tool failure makes the stage
+    /// (not the check) inconclusive.
+    pub fn miri(&mut self, lo: u64, hi: u64) {
+        use crate::drive::sanitize::{miri_json, miri_stage};
+        // the stage interprets cases lo..hi in 16 shards; `direct` takes absolute indices
+        let n = hi - lo;
+        let r = {
+            // shards over [lo, hi): run as one stage per contiguous block
+            let mut total = crate::drive::sanitize::MiriResult::default();
+            let shards = 16u64.min(n.max(1));
+            let per = n.div_ceil(shards);
+            // miri_stage shards [0, n); emulate an offset by running it on sub-ranges through a closure
+            let r = miri_stage_range("miri", &self.ctx.tier, self.ctx.seed, lo, hi, per);
+            total.cases = r.cases;
+            total.reports = r.reports;
+            total.violations = r.violations;
+            total.tool_failure = r.tool_failure;
+            total.wall_s = r.wall_s;
+            total
+        };
+        self.observed.insert("sanitizer_stage:miri".into(), miri_json(&r));
+        if let Some(f) = &r.tool_failure {
+            self.notes.push(format!("Miri stage inconclusive (tool failure, no verdict): {}", clip(f, 300)));
+        }
+        for (range, kind, excerpt) in &r.reports {
+            if kind == "undefined-behaviour" {
+                let first = excerpt.lines().next().unwrap_or("").to_owned();
+                self.violation(
+                    &format!("Miri: {}", clip(&first, 120)),
+                    "the interpreter reported undefined behaviour while running the pipeline",
+                    &json!({"workload": "miri", "cases": range}),
+                    &json!({"report": excerpt}),
+                    "miri",
+                );
+            } else {
+                self.notes.push(format!("Miri stage: cases {range}: {kind} (no verdict)"));
+            }
+        }
+        for (idx, kind, detail) in &r.violations {
+            let sig = detail.get("signature").and_then(Value::as_str).unwrap_or(kind).to_owned();
+            self.violation(&sig, kind, &json!({"workload": "miri", "index": idx}), detail, "miri");
+        }
+        let _ = miri_stage;
     }
 
     /// Writes the evidence file, prints the verdict lines and returns the exit code.
@@ -368,14 +442,36 @@ impl<'a> Acc<'a> {
     }
 }
 
+fn miri_stage_range(workload: &str, tier: &str, seed: u64, lo: u64, hi: u64, per: u64) -> crate::drive::sanitize::MiriResult {
+    crate::drive::sanitize::miri_stage_offset(workload, tier, seed, lo, hi, per, 1800)
+}
+
 /// Registry of workloads by name (used by both coordinator and workers).
 pub fn workload(name: &str, tier: &str) -> Option<Box<dyn Workload>> {
     let quick = tier == "quick";
     if let Some(c) = name.strip_prefix("witness:") {
         return Some(Box::new(witness::Witnesses { check: c.to_owned() }));
     }
+    // sanitizer-stage variants of process-level workloads: same cases, smaller count
+    let (name, stage) = match name.rsplit_once('-') {
+        Some((b, st @ ("asan" | "vg" | "strace"))) => (b, Some(st)),
+        _ => (name, None),
+    };
+    if let Some(st) = stage {
+        return match (name, st) {
+            ("c04cli", "asan") => Some(Box::new(c04::CliTexts { n: 2000 })),
+            ("c04cli", "vg") => Some(Box::new(c04::CliTexts { n: 120 })),
+            ("c04lsp", "asan") => Some(Box::new(c04::LspTyping { n: 100 })),
+            ("c13", "asan") => Some(Box::new(c13::Workspaces { n: 500 })),
+            ("c13", "strace") => Some(Box::new(c13::Workspaces { n: 500 })),
+            ("c15", "asan") => Some(Box::new(c15::Histories { n: 300, max_steps: 40 })),
+            ("c18", "asan") => Some(Box::new(c18::Renames { n: 100 })),
+            _ => None,
+        };
+    }
     match name {
         "c16" => Some(Box::new(c16::Positions::new(quick))),
+        "miri" => Some(Box::new(miri::MiriCases)),
         "c13" => Some(Box::new(c13::Workspaces {
             n: if quick { 600 } else { 12_000 },
         })),
